@@ -108,8 +108,12 @@ def helpers_of(fx, proc):
     return sum(1 for e in fx.events() if e["k"] == "start" and (e.get("id") or {}).get("cmd") == proc.cmd)
 
 
-def new_fixture(bins):
+def new_fixture(bins, bind_timeout_ms=None):
     fx = fixture.Fixture(bins, [{"path": "t1"}, {"path": "t2", "uses": ["t1"]}], max_retained_runs=3)
+    if bind_timeout_ms:
+        cfg = fx.config()
+        cfg["server"]["lock"]["bind_timeout_ms"] = bind_timeout_ms
+        fx.write_config(json.dumps(cfg))
     fx.add_cmd("t1", "warm", [{"op": "exit", "code": 0}], ext=".sh")
     fx.git_init()
     fx.monorail(["checkpoint", "update"])
@@ -162,9 +166,10 @@ def parked_scenario(bins, idx, spec, rng):
 
 
 def queued_scenario(bins, idx, spec, rng):
-    """The holder is released ~0.7 s after a contender has reached lock acquisition (bind_timeout_ms is 1000): a
-    contender that waits for the lock instead of failing at once gets it and is exposed."""
-    fx = new_fixture(bins)
+    """The holder is released 3 s after a contender has reached lock acquisition (bind_timeout_ms is set to 4000): a
+    contender that waits for the lock instead of failing at once gets it and is exposed. The margins are seconds, not
+    milliseconds, so that no scheduling hiccup of a correct contender can be mistaken for waiting."""
+    fx = new_fixture(bins, bind_timeout_ms=4000)
     try:
         release = os.path.join(fx.root, "release")
         holder = Proc(fx, 1, spec["holder"], park=release)
@@ -175,7 +180,7 @@ def queued_scenario(bins, idx, spec, rng):
         deadline = time.time() + 20
         while not cont.trying() and time.time() < deadline and cont.p.poll() is None:
             time.sleep(0.002)
-        t_end = time.time() + 0.7
+        t_end = time.time() + 3.0
         while time.time() < t_end and cont.p.poll() is None:
             time.sleep(0.01)
         time.sleep(max(0.0, t_end - time.time()))
